@@ -48,6 +48,9 @@ func runC17(c *fw.Ctx) {
 	for i := 0; i < c.Pick(1500, 20000); i++ {
 		c.Case(func(k *fw.K) { c17Invalid(k) })
 	}
+	for i := 0; i < c.Pick(600, 6000); i++ {
+		c.Case(func(k *fw.K) { c17SameObjectTwice(k) })
+	}
 	huge := [][]int{{100, 700}, {70001}, {33, 500}, {4097, 4}, {9, 90, 90}, {129, 128}}
 	if c.Quick() {
 		huge = huge[:4]
@@ -234,4 +237,75 @@ func c17Invalid(k *fw.K) {
 	if ptr != nil && *ptr != before {
 		k.Failf("Update(%s) returned an error but replaced the tensor behind the pointer", names[kind])
 	}
+}
+
+// c17SameObjectTwice: one optimizer steps the SAME tensor object twice - the caller keeps the old tensor (a rejected
+// trial step) and its gradient has grown in between through a second back-propagation - and gradients of very large
+// or very small magnitude (all finite, w - lr*g representable).
+func c17SameObjectTwice(k *fw.K) {
+	shape := RandShape(k.Rng, 0, 3, 3)
+	lr := c17LRs[3+k.Rng.Intn(5)]
+	scale := []float64{1, 1, 1e200, 1e-200, 1e160}[k.Rng.Intn(5)]
+	k.Case = map[string]any{"scenario": "same tensor object stepped twice, gradient accumulated in between", "shape": shape, "learning_rate": lr.name, "gradient_scale": scale}
+	k.Key("same-object/%s/%s/%g", shapeKey(shape), lr.name, scale)
+	k.Count("same_object_twice_cases", 1)
+	conf := *lr.conf
+	opt := optimizers.NewSGD(&conf)
+	wv := Shuffled(k.Rng, Unique(k.Rng, shape, 0.2, 2))
+	c1, c2 := Shuffled(k.Rng, Unique(k.Rng, shape, 0.5, 3)), Shuffled(k.Rng, Unique(k.Rng, shape, 0.5, 3))
+	for i := range c1.Data {
+		c1.Data[i] *= scale
+		c2.Data[i] *= scale
+	}
+	w0 := rt.MustLeaf(wv, true)
+	var y1, y2 tensor.Tensor
+	var err error
+	if p := call(func() {
+		if y1, err = w0.Mul(rt.MustLeaf(c1, false)); err != nil {
+			return
+		}
+		if y2, err = w0.Mul(rt.MustLeaf(c2, false)); err != nil {
+			return
+		}
+		err = tensor.BackPropagate(y1)
+	}); p != nil || err != nil {
+		k.Failf("building the graphs failed: panic=%v err=%v", p, err)
+		return
+	}
+	check := func(step int, g *ref.T) bool {
+		w := w0 // the pointer is pointed back at the original tensor object before every step
+		if p := call(func() { err = opt.Update(&w) }); p != nil || err != nil {
+			k.Failf("step %d: Update failed: panic=%v err=%v", step, p, err)
+			return false
+		}
+		nv, err := rt.Read(w)
+		if err != nil || !ref.SameShape(nv.Shape, shape) {
+			k.Failf("step %d: updated tensor unreadable / wrong shape: %v", step, err)
+			return false
+		}
+		for i := range nv.Data {
+			want := wv.Data[i] - lr.lr*g.Data[i]
+			if math.IsInf(want, 0) {
+				continue
+			}
+			tol := 4e-16 * (math.Abs(wv.Data[i]) + math.Abs(lr.lr*g.Data[i]))
+			if !(math.Abs(nv.Data[i]-want) <= tol) {
+				k.Failf("step %d of the same tensor object (gradient scale %g): element %d = %v, expected w - lr*g = %v - %v*%v = %v", step, scale, i, nv.Data[i], wv.Data[i], lr.lr, g.Data[i], want)
+				return false
+			}
+		}
+		return true
+	}
+	if !check(1, c1) {
+		return
+	}
+	if p := call(func() { err = tensor.BackPropagate(y2) }); p != nil || err != nil {
+		k.Failf("second back-propagation failed: panic=%v err=%v", p, err)
+		return
+	}
+	g2 := c1.Clone()
+	for i := range g2.Data {
+		g2.Data[i] += c2.Data[i]
+	}
+	check(2, g2)
 }
